@@ -469,6 +469,122 @@ def run_mcpclient(ctl: explorer.Ctl, cfg: Dict[str, Any]) -> Dict[str, Any]:
     return {"outcome": "/".join(o[0] for o in outcomes), "outcomes": outcomes, "violations": viol}
 
 
+RUN_MC2 = "vf.checks.c03:run_mcp_two_tasks"
+
+
+def run_mcp_two_tasks(ctl: explorer.Ctl, cfg: Dict[str, Any]) -> Dict[str, Any]:
+    """Two tasks use ONE MCPClient: task A starts initialize(); task B starts `second` (initialize or an operation)
+    while A's handshake is still waiting for the answer.  Every initialize request is answered after `delay` with
+    `answer`.  Nobody may come out successfully unless a handshake really completed, and no operation goes on the
+    wire before one did."""
+    import asyncio
+
+    from chuk_mcp.client.client import MCPClient
+    from chuk_mcp.protocol.messages.json_rpc_message import parse_message
+    from chuk_mcp.transports.base import Transport
+
+    loop = new_loop(horizon=400)
+    writes: List[tuple] = []
+    st: Dict[str, Any] = {"handled": 0}
+
+    class MemTransport(Transport):
+        def __init__(self):
+            super().__init__(None)
+
+        async def get_streams(self):
+            return st["recv_r"], st["w"]
+
+        async def __aenter__(self):
+            return self
+
+        async def __aexit__(self, *a):
+            return False
+
+        def set_protocol_version(self, version):
+            pass
+
+    def idle(lp):
+        while st["handled"] < len(writes):
+            t, m = writes[st["handled"]]
+            st["handled"] += 1
+            d = m.model_dump(exclude_none=True) if hasattr(m, "model_dump") else {}
+            rid = d.get("id")
+            if d.get("method") == "initialize":
+                how = cfg["answer"]
+                if how == "ok":
+                    wire = {"jsonrpc": "2.0", "id": rid, "result": {"protocolVersion": d["params"]["protocolVersion"], **CAPS}}
+                elif how == "error":
+                    wire = {"jsonrpc": "2.0", "id": rid, "error": {"code": -32603, "message": "boom"}}
+                elif how == "mismatch":
+                    wire = {"jsonrpc": "2.0", "id": rid, "result": {"protocolVersion": "1999-12-31", **CAPS}}
+                elif how == "malformed":
+                    wire = {"jsonrpc": "2.0", "id": rid, "result": {"capabilities": {}}}
+                else:
+                    wire = None
+                if wire is not None:
+                    lp.env_call_at(lp.time() + cfg["delay"], 0, st["send_r"].send_nowait, parse_message(wire))
+            elif d.get("method") == "tools/list":
+                st["send_r"].send_nowait(parse_message({"jsonrpc": "2.0", "id": rid, "result": {"tools": []}}))
+
+    async def main():
+        send_w, recv_w = anyio.create_memory_object_stream(math.inf)
+        send_r, recv_r = anyio.create_memory_object_stream(math.inf)
+        st["send_r"], st["recv_r"] = send_r, recv_r
+        st["w"] = RecordingSend(send_w, writes, loop)
+        client = MCPClient(MemTransport())
+        results: Dict[str, Any] = {}
+
+        async def run(name, what, start):
+            if start:
+                await asyncio.sleep(start)
+            try:
+                with anyio.fail_after(5.0):
+                    if what == "initialize":
+                        await client.initialize()
+                    else:
+                        await client.list_tools()
+                results[name] = "returned"
+            except BaseException as e:  # noqa: BLE001
+                results[name] = "raised:" + type(e).__name__
+
+        ta = asyncio.ensure_future(run("A", "initialize", 0))
+        tb = asyncio.ensure_future(run("B", cfg["second"], cfg["offset"]))
+        await ta
+        await tb
+        return results, bool(client.initialized)
+
+    loop.idle_hook = idle
+    status, val = loop.run_main(main())
+    errors = loop.collect_errors()
+    loop.abandon()
+    viol: List[dict] = []
+    if status != "ok":
+        return {"outcome": status, "violations": [{"sig": {"class": "did-not-finish", "part": "mcpclient-two-tasks"}, "msg": f"cfg={cfg}: {status} {core.clean_repr(val)}"}]}
+    results, inited = val
+    completed = [t for t, m in writes if getattr(m, "method", None) == "notifications/initialized"]
+    first_op = [t for t, m in writes if getattr(m, "method", None) == "tools/list"]
+    wire = [getattr(m, "method", None) for _, m in writes]
+
+    def bad(cls, msg, **extra):
+        viol.append({"sig": {"class": cls, "part": "mcpclient-two-tasks", **extra}, "msg": f"cfg={cfg}: {msg} [results={results}; wire={wire}]"})
+
+    if first_op and (not completed or first_op[0] < completed[0] - 1e-12):
+        bad("operation-before-handshake", "tools/list was written although no handshake had completed")
+    for name in ("A", "B"):
+        if results.get(name) == "returned" and not completed:
+            bad("returned-without-a-completed-handshake", f"task {name} came back normally although no initialize/initialized exchange ever completed",
+                task="first" if name == "A" else "second-concurrent")
+    # (whether two callers sharing one read stream both GET their answers is C18's subject - a recorded open finding -
+    #  so success is not demanded here; only that nobody succeeds without a handshake)
+    if cfg["answer"] != "ok" and completed:
+        bad("initialized-sent-on-failure", f"{len(completed)} initialized notifications although every answer was {cfg['answer']}")
+    if inited and not completed:
+        bad("initialized-without-handshake", "the client reports initialized=True")
+    if errors:
+        bad("loop-error", f"{errors[:2]}")
+    return {"outcome": f"{results.get('A')}/{results.get('B')}", "violations": viol}
+
+
 # ---------------------------------------------------------------------------
 # two handshakes overlapping in one process (separate connections)
 # ---------------------------------------------------------------------------
@@ -863,11 +979,24 @@ def run_late_answer(ctl: explorer.Ctl, cfg: Dict[str, Any]) -> Dict[str, Any]:
         send_r, recv_r = anyio.create_memory_object_stream(math.inf)
         st["send_r"], st["recv_r"] = send_r, recv_r
         st["w"] = RecordingSend(send_w, writes, loop)
-        r1 = await one(cfg["list1"], None, 0.3)
-        # the abandoned handshake's answer arrives now (0, 1 or 2 copies)
-        inits = [m for _, m in writes if getattr(m, "method", None) == "initialize"]
-        for _ in range(cfg["late_copies"]):
-            send_r.send_nowait(answer_to(inits[0], cfg["v1"]))
+        if cfg.get("first") == "ok":
+            # the first handshake is answered in time and completes; the second one re-initialises the same connection
+            async def answer_first():
+                import asyncio as _a
+                while not [m for _, m in writes if getattr(m, "method", None) == "initialize"]:
+                    await _a.sleep(0.01)
+                req = [m for _, m in writes if getattr(m, "method", None) == "initialize"][0]
+                send_r.send_nowait(answer_to(req, (getattr(req, "params", None) or {}).get("protocolVersion")))
+            import asyncio as _a2
+            t_ans = _a2.ensure_future(answer_first())
+            r1 = await one(cfg["list1"], None, 0.3)
+            await t_ans
+        else:
+            r1 = await one(cfg["list1"], None, 0.3)
+            # the abandoned handshake's answer arrives now (0, 1 or 2 copies)
+            inits = [m for _, m in writes if getattr(m, "method", None) == "initialize"]
+            for _ in range(cfg["late_copies"]):
+                send_r.send_nowait(answer_to(inits[0], cfg["v1"]))
         st["n_writes_before_2"] = len(writes)
         st["phase"] = 2
         r2 = await one(cfg["list2"], cfg["pref2"], 1.0)
@@ -884,7 +1013,10 @@ def run_late_answer(ctl: explorer.Ctl, cfg: Dict[str, Any]) -> Dict[str, Any]:
     def bad(cls, msg):
         viol.append({"sig": {"class": cls, "part": "late-answer"}, "msg": f"cfg={cfg}: {msg} [first: {k1}; second: {k2} {v2got!r}]"})
 
-    if k1 != "timeout":
+    if cfg.get("first") == "ok":
+        if k1 != "ok":
+            bad("valid-answer-rejected", "the first handshake was answered with its own proposal")
+    elif k1 != "timeout":
         bad("first-handshake-not-abandoned", "the silent first handshake must time out")
     sup2 = cfg["list2"]
     want2 = cfg["pref2"] if (cfg["pref2"] is not None and cfg["pref2"] in sup2) else sup2[0]
@@ -926,6 +1058,9 @@ def late_configs():
                         for tr in (False, True):
                             out.append({"list1": ["2025-06-18", "2025-03-26"], "v1": v1, "list2": list2, "pref2": pref2,
                                         "v2": v2, "late_copies": copies, "delay2": delay2, "tracked": tr})
+                            if v1 == "2025-06-18" and copies == 1:
+                                out.append({"first": "ok", "list1": ["2025-06-18", "2025-03-26"], "v1": v1, "list2": list2,
+                                            "pref2": pref2, "v2": v2, "late_copies": 0, "delay2": delay2, "tracked": tr})
     return out
 
 
@@ -967,6 +1102,11 @@ def run(tier: str, only=None) -> core.Result:
     out = explorer.explore(RUN_MC, mc, fidelity=True)
     sched.absorb(res, "mcpclient-sequences", RUN_MC, out, mc)
     sched.debug_pass(res, "mcpclient-sequences", RUN_MC, mc, every=3)
+    mc2 = [{"answer": a, "second": sec, "offset": off, "delay": d}
+           for a in ("ok", "error", "mismatch", "malformed")
+           for sec in ("initialize", "op") for off in (0.0, 0.05, 0.19) for d in (0.2, 0.6)]
+    out = explorer.explore(RUN_MC2, mc2, fidelity=True)
+    sched.absorb(res, "mcpclient-two-tasks-one-client", RUN_MC2, out, mc2)
     sched.debug_pass(res, "grid", RUN, cfgs, every=37)
     vs = ["2025-06-18", "2025-03-26", "2024-11-05", "2099-01-01"]
     cc = []
